@@ -2,6 +2,7 @@
     specification [sg] and model [gn] use for a range item are Python's, and integer
     indexes wrap / fail as Python's do. *)
 From AwkV Require Import Layout Ops_Getitem Proofs_C01.
+From AwkV Require Import Valid Types Carry Proofs_Lists Proofs_ToList Proofs_Carry.
 
 (* a range selects exactly range applied to slice(start,stop,step).indices(n): the arithmetic
    progression from the clamped start that stays strictly before the clamped stop *)
@@ -46,3 +47,17 @@ Print Assumptions integer_index_wraps.
 Theorem out_of_range_is_error : forall n i, (exists j, wrap_at n i = Ok j) <-> - n <= i < n.
 Proof. exact wrap_at_error. Qed.
 Print Assumptions out_of_range_is_error.
+
+(* carry (the gather that every slicing step of the model and of the C++ goes through) selects
+   exactly the indexed elements, for every node class *)
+Theorem carry_selects_indexed_elements : forall c vs ix,
+  Valid None c -> to_list c = Ok vs -> Forall (fun i => 0 <= i < clen c) ix ->
+  exists c', carry c ix = Ok c' /\ to_list c' = mapM (get vs) ix /\ clen c' = zlen ix.
+Proof. exact carry_spec. Qed.
+Print Assumptions carry_selects_indexed_elements.
+
+Theorem range_slice_is_list_slice : forall c vs a b,
+  Valid None c -> to_list c = Ok vs -> 0 <= a -> a <= b -> b <= clen c ->
+  exists c', crange c a b = Ok c' /\ to_list c' = slice vs a b /\ clen c' = b - a.
+Proof. exact crange_spec. Qed.
+Print Assumptions range_slice_is_list_slice.
